@@ -358,4 +358,25 @@ theorem C26_try_V1 (tol : Int) (n me : Nat) (s : VState) (now : Int) (hn : n ≠
 
 example : (10 * sec - 0 ≤ 5 * sec → 10 * sec - 0 < (lenFirst 12 11 : Int) * sec) := by decide
 
+/-! ## `Consensus`: both entry points use the same schedule at every height -/
+
+/-- The polling entry point `Consensus.TryChangeView` (running consensus) is the tolerance guard in
+    front of exactly the schedule `Consensus.ChangeView` uses — for every block height, in
+    particular at `ChangeViewV1Height` itself. -/
+theorem C26_consensus_entry_points (forkH height : Nat) (tol : Int) (n me : Nat) (s : VState) (now : Int) :
+    consTryChangeView forkH height true tol n me s now =
+      if now > s.start + tol then consChangeView forkH height tol n me s now else some s := by
+  unfold consTryChangeView consChangeView tryChangeViewV0 tryChangeViewV1
+  by_cases h : height < forkH <;> simp [h]
+
+/-- a consensus that is not running never moves its view. -/
+theorem C26_consensus_not_running (forkH height : Nat) (tol : Int) (n me : Nat) (s : VState) (now : Int) :
+    consTryChangeView forkH height false tol n me s now = some s := by
+  simp [consTryChangeView]
+
+/-- at the fork height itself the V1 schedule is in force (3 arbiters, 50 s: offset 4, not 10). -/
+example : consChangeView 1000 1000 (5 * sec) 3 0 ⟨0, 0, false⟩ (50 * sec) = some ⟨4, 20 * sec, false⟩ ∧
+    consTryChangeView 1000 1000 true (5 * sec) 3 0 ⟨0, 0, false⟩ (50 * sec) = some ⟨4, 20 * sec, false⟩ ∧
+    consChangeView 1000 999 (5 * sec) 3 0 ⟨0, 0, false⟩ (50 * sec) = some ⟨10, 50 * sec, false⟩ := by decide
+
 end ElaVerif.C26
